@@ -129,6 +129,30 @@ def directed_inc(seed, count):
     return out
 
 
+def lone_prepared(seed, count):
+    """f >= 2 (n = 7): both tolerated faults used up - one member silent, the round-1 leader crashing in the middle of its
+    PREPARE broadcast, which reaches ONE member - and one running member that started a round early, so that its round 1
+    expires just before the PRE-PREPARE arrives: exactly one running member holds a prepared certificate, the other running
+    members (a bare quorum together) none.  The next leaders must re-propose that value (justification J2 with a single
+    prepared ROUND-CHANGE in the quorum)."""
+    r = vlib.rng(seed, "c04/lone_prepared")
+    out = []
+    for k in range(count):
+        n = 7
+        inst = r.randrange(n)
+        ldr = (inst + 1) % n
+        rest = [p for p in range(n) if p != ldr]
+        silent, early, lucky = r.sample(rest, 3)
+        late = r.choice([850, 900, 900, 950])
+        offsets = [late] * n
+        offsets[early] = 0
+        lat = uniform_lat(n, r.choice([100, 150, 150, 200]))
+        crashes = [{"p": silent, "after": 0, "to": []}, {"p": ldr, "after": 2, "to": [lucky] if k % 5 else [lucky, early]}]
+        out.append(scenario(n, inst, r.choice(["eager", "eager", "inc"]), offsets, lat, crashes, tie=r.randint(0, 1),
+                            inputs=[1 + r.randint(0, 1) for _ in range(n)]))
+    return out
+
+
 def mutators():
     def late_decision(t):
         # pretend the last decision happened N+2 rounds later than it did
@@ -200,6 +224,9 @@ def run(tier, seed):
     # around the inc-timer finding: late round-1 leader, f silent members, one high latency on every link
     vlib.conformance(o, qc.FAMILY, "QBFTTimedTrace", cfg_of, "c04", directed_inc(seed, 400 if thorough else 60),
                      tag="directed_inc", chunk=120, dev_cfgs=devs)
+    # f = 2: a single prepared member among a bare quorum of running members (J2 with one prepared ROUND-CHANGE)
+    vlib.conformance(o, qc.FAMILY, "QBFTTimedTrace", cfg_of, "c04", lone_prepared(seed, 200 if thorough else 24),
+                     tag="lone_prepared", chunk=120, dev_cfgs=devs)
     tr = vlib.split_traces(vlib.read_ndjson(vlib.workdir(pid) + "/trace_sampled.ndjson"))
     vlib.binding_selftest(o, qc.FAMILY, "QBFTTimedTrace", cfg_of, tr, mutators())
     drs = [e["dround"] for t in tr for e in t if e.get("ev") == "Deliver" and e.get("rule") in ("QC", "JD")]
